@@ -719,7 +719,9 @@ class Tuple(Criterion):
             yield from value.nodes_()
 
     def get_sql(self, ctx: SqlContext) -> str:
-        sql = "({})".format(",".join(term.get_sql(ctx) for term in self.values))
+        # the items are operands: an alias one of them carries defines nothing here
+        item_ctx = ctx.copy(with_alias=False)
+        sql = "({})".format(",".join(term.get_sql(item_ctx) for term in self.values))
         return format_alias_sql(sql, self.alias, ctx)
 
     @property
@@ -752,7 +754,8 @@ class Array(Tuple):
         if ctx.parameterizer is None or not ctx.parameterizer.should_parameterize(
             self.original_value
         ):
-            values = ",".join(term.get_sql(ctx) for term in self.values)
+            item_ctx = ctx.copy(with_alias=False)
+            values = ",".join(term.get_sql(item_ctx) for term in self.values)
 
             sql = "[{}]".format(values)
             if ctx.dialect in (Dialects.POSTGRESQL, Dialects.REDSHIFT):
@@ -939,9 +942,9 @@ class ContainsCriterion(Criterion):
         self.term = self.term.replace_table(current_table, new_table)
 
     def get_sql(self, ctx: SqlContext) -> str:
-        container_ctx = ctx.copy(subquery=True)
+        container_ctx = ctx.copy(subquery=True, with_alias=False)
         sql = "{term} {not_}IN {container}".format(
-            term=self.term.get_sql(ctx),
+            term=self.term.get_sql(ctx.copy(with_alias=False)),
             container=self.container.get_sql(container_ctx),
             not_="NOT " if self._is_negated else "",
         )
@@ -989,20 +992,22 @@ class BetweenCriterion(RangeCriterion):
 
     def get_sql(self, ctx: SqlContext) -> str:
         # FIXME escape
+        operand_ctx = ctx.copy(with_alias=False)
         sql = "{term} BETWEEN {start} AND {end}".format(
-            term=self.term.get_sql(ctx),
-            start=self.start.get_sql(ctx),
-            end=self.end.get_sql(ctx),
+            term=self.term.get_sql(operand_ctx),
+            start=self.start.get_sql(operand_ctx),
+            end=self.end.get_sql(operand_ctx),
         )
         return format_alias_sql(sql, self.alias, ctx)
 
 
 class PeriodCriterion(RangeCriterion):
     def get_sql(self, ctx: SqlContext) -> str:
+        operand_ctx = ctx.copy(with_alias=False)
         sql = "{term} FROM {start} TO {end}".format(
-            term=self.term.get_sql(ctx),
-            start=self.start.get_sql(ctx),
-            end=self.end.get_sql(ctx),
+            term=self.term.get_sql(operand_ctx),
+            start=self.start.get_sql(operand_ctx),
+            end=self.end.get_sql(operand_ctx),
         )
         return format_alias_sql(sql, self.alias, ctx)
 
@@ -1035,9 +1040,10 @@ class BitwiseAndCriterion(Criterion):
         self.term = self.term.replace_table(current_table, new_table)
 
     def get_sql(self, ctx: SqlContext) -> str:
+        operand_ctx = ctx.copy(with_alias=False)
         sql = "({term} & {value})".format(
-            term=self.term.get_sql(ctx),
-            value=self.value.get_sql(ctx),
+            term=self.term.get_sql(operand_ctx),
+            value=self.value.get_sql(operand_ctx),
         )
         return format_alias_sql(sql, self.alias, ctx)
 
@@ -1069,7 +1075,7 @@ class NullCriterion(Criterion):
 
     def get_sql(self, ctx: SqlContext) -> str:
         sql = "{term} IS NULL".format(
-            term=self.term.get_sql(ctx),
+            term=self.term.get_sql(ctx.copy(with_alias=False)),
         )
         return format_alias_sql(sql, self.alias, ctx)
 
@@ -1302,7 +1308,7 @@ class Not(Criterion):
         yield from self.term.nodes_()
 
     def get_sql(self, ctx: SqlContext) -> str:
-        not_ctx = ctx.copy(subcriterion=True)
+        not_ctx = ctx.copy(subcriterion=True, with_alias=False)
         sql = "NOT {term}".format(term=self.term.get_sql(not_ctx))
         return format_alias_sql(sql, self.alias, ctx)
 
@@ -1517,6 +1523,8 @@ class AnalyticFunction(AggregateFunction):
         )
 
     def get_partition_sql(self, ctx: SqlContext) -> str:
+        # PARTITION BY / ORDER BY terms are operands of the window, not select items
+        ctx = ctx.copy(with_alias=False)
         terms = []
         if self._partition:
             terms.append(
